@@ -17,7 +17,8 @@
 (* counts concentration updates, cacheVers is the set of alpha versions    *)
 (* under which entries now in the proposal caches were computed.  The      *)
 (* timer is abstracted to "has any timed block completed" (elapsedPos),    *)
-(* enough to decide comparisons with max_time in {0, infinity}.            *)
+(* enough to decide comparisons with max_time in {0, infinity}; a finite
+(* positive limit ("finite") may expire at any time check after the first. *)            *)
 (* The option record is a variable chosen at Init so that one TLC run      *)
 (* covers the cross-product and traces can carry their own options.        *)
 (***************************************************************************)
@@ -64,7 +65,8 @@ Relabel == /\ InLoop /\ pc = "relabel"
            /\ UNCHANGED <<opt, phase, i, k, alphaVer, treeVer, cacheVers, elapsedPos, trace>>
 \* ---- burn-in only: time check inside the timed block, then the block exits (elapsed becomes positive)
 BurninTime == /\ phase = "burnin" /\ pc = "time"
-              /\ LET stop == (opt.tmax = "zero" /\ elapsedPos) \/ (i + 1 >= opt.burnin) IN
+              /\ \E stop \in IF (opt.tmax = "zero" /\ elapsedPos) \/ (i + 1 >= opt.burnin) THEN {TRUE}
+                                 ELSE IF opt.tmax = "finite" /\ elapsedPos THEN {TRUE, FALSE} ELSE {FALSE} :
                    /\ phase' = IF stop THEN "setup" ELSE "burnin"
                    /\ i' = IF stop THEN 0 ELSE i + 1
               /\ pc' = "clear" /\ elapsedPos' \in {TRUE, elapsedPos}
@@ -88,7 +90,8 @@ AppendStep == /\ phase = "main" /\ pc = "append"
               /\ pc' = "time"
               /\ UNCHANGED <<opt, phase, i, k, alphaVer, treeVer, cacheVers, elapsedPos>>
 MainTime == /\ phase = "main" /\ pc = "time"
-            /\ LET stop == (opt.tmax = "zero") \/ (i + 1 >= opt.iters) IN
+            /\ \E stop \in IF (opt.tmax = "zero") \/ (i + 1 >= opt.iters) THEN {TRUE}
+                               ELSE IF opt.tmax = "finite" THEN {TRUE, FALSE} ELSE {FALSE} :
                  /\ phase' = IF stop THEN "done" ELSE "main"
                  /\ i' = IF stop THEN i ELSE i + 1
             /\ pc' = "clear" /\ elapsedPos' = TRUE /\ ev' = [name |-> "skip"]
@@ -104,8 +107,11 @@ TraceProtocol ==
   /\ Len(trace) >= 1 => trace[1].iter = 0
   /\ \A j \in 2..Len(trace) : trace[j].iter = (j - 2) * opt.thin
   /\ \A j \in 2..Len(trace) : trace[j].iter < opt.iters
+FullLen == 1 + (IF opt.iters = 0 THEN 0 ELSE ((opt.iters - 1) \div opt.thin) + 1)
 TraceComplete == phase = "done" =>
-  Len(trace) = 1 + (IF opt.iters = 0 THEN 0 ELSE IF opt.tmax = "zero" THEN 1 ELSE ((opt.iters - 1) \div opt.thin) + 1)
+  CASE opt.tmax = "inf"  -> Len(trace) = FullLen
+    [] opt.tmax = "zero" -> Len(trace) = 1 + (IF opt.iters = 0 THEN 0 ELSE 1)
+    [] OTHER             -> Len(trace) >= 1 + (IF opt.iters = 0 THEN 0 ELSE 1) /\ Len(trace) <= FullLen
 \* an entry records the tree and concentration value current when it is appended; later steps never alter recorded entries
 EntriesCurrent == Len(trace) >= 1 => /\ trace[Len(trace)].alphaVer <= alphaVer /\ trace[Len(trace)].treeVer <= treeVer
                                       /\ (ev.name = "append" => trace[Len(trace)].alphaVer = alphaVer /\ trace[Len(trace)].treeVer = treeVer)
